@@ -8,13 +8,16 @@ from ..facts_cmd import allocation_problems
 from ..engine import World, new_workdir, rmtree, Monitor
 from ..scenarios import HB
 
-GEN = dict(napps=2, nsides=3, steps=80, names=["1", "2", "5", "05", "12", " 12", "1000", "x", "9", "10"], p_illegal=0.03)
+GEN = dict(napps=2, nsides=3, steps=80, names=["1", "2", "3", "4", "5", "6", "7", "8", "9", "05", " 12", "1000", "x", "10"], p_illegal=0.03)
 KEYS = ("c04_allocate",)
 
 
 def jobs(pid, tier, seed):
     out = [{"kind": "fill", "allow_list": a, "usage": u} for a in (True, False) for u in ((True, False) if tier == "thorough" else (False,))]
     out += [{"kind": "holes", "allow_list": a, "level": l} for a in (True, False) for l in (1, 2, 3)]
+    out += [{"kind": "retire", "allow_list": a, "level": l, "how": h, "warm": w, "usage": u}
+            for a in (True, False) for l in (1, 2) for h in ("release", "close", "close-two-sides", "expiry-one", "restart-close")
+            for w in (0, 1) for u in (0, 1) if l == 1 or (w == 1 and u == 0 and (a or tier == "thorough"))]
     n = 2500 if tier == "quick" else 50000
     out += [{"kind": "random", "seed": seed * 1000003 + i} for i in range(n)]
     return out
@@ -81,6 +84,8 @@ def run_job(pid, job, acc):
                  quiesce=False, post=post)
     elif k == "holes":
         run_holes(job, acc)
+    elif k == "retire":
+        run_retire(job, acc)
     elif k == "fill":
         run_fill(job, acc)
 
@@ -123,6 +128,78 @@ def run_holes(job, acc):
                 "timer": True, "quiesce": False}
         acc.cases += 1
         acc.absorb_tracker(ex.tracker, w, hhash(base["history"]), base, KEYS)
+    finally:
+        ex.close()
+
+
+def run_retire(job, acc):
+    """A level is full; one name is retired by release / last close / expiry / close after a restart;
+    the next allocate must return exactly that name (it is the only free value of the shortest length)."""
+    lvl, how = job["level"], job["how"]
+    cfg = Config(usage=bool(job["usage"]), allow_list=job["allow_list"])
+    case = "retire:%s" % sorted(job.items())
+    hi = 9 if lvl == 1 else 99
+    victim = 5 if lvl == 1 else 42
+    b = HB()
+    if job["warm"]:
+        w0 = b.conn("app", "s9")          # an earlier allocate and list in this app (loads whatever is cached)
+        b.send(w0, type="allocate")
+        b.send(w0, type="list")
+        b.send(w0, type="release", nameplate={"$alloc": w0})
+    holder = None
+    for i in range(1, hi + 1):
+        c = b.conn("app", "s1")
+        b.send(c, type="claim", nameplate="%d" % i)
+        if i == victim:
+            holder = c
+            b.send(c, type="open", mailbox={"$claimed": c})
+            if how == "close-two-sides":
+                c2 = b.conn("app", "s2")
+                b.send(c2, type="claim", nameplate="%d" % i)
+                b.send(c2, type="open", mailbox={"$claimed": c})
+    if how == "expiry-one":
+        # everybody but the victim's holder stays subscribed... simpler: refresh all others just before the sweep
+        b.drop(holder)
+        b.adv(400)
+        for i in range(1, hi + 1):
+            if i != victim:
+                c = b.conn("app", "s1")
+                b.send(c, type="claim", nameplate="%d" % i)
+        b.adv(300)      # sweep at 600: victim idle 600 < 660, survives
+        b.adv(300)      # sweep at 900: victim idle 900 > 660, others idle 500
+    elif how == "release":
+        b.send(holder, type="release")
+        b.send(holder, type="close", mood="happy")
+    elif how == "close":
+        b.send(holder, type="close", mood="happy")
+    elif how == "close-two-sides":
+        b.send(holder, type="close", mood="happy")
+        b.send(c2, type="close", mood="happy")
+    elif how == "restart-close":
+        b.restart()
+        r = b.conn("app", "s1")
+        b.send(r, type="list")
+        b.send(r, type="close", mailbox={"$claimed": holder}, mood="lonely")
+    L = b.conn("app", "s3")
+    b.send(L, type="list")
+    A = b.conn("app", "s3")
+    b.send(A, type="allocate")
+    ex = Exec(cfg, seed=lvl)
+    try:
+        ex.start()
+        ex.run(b.h, stop_prop="C04")
+        got = ex.allocs.get(A)
+        acc.ev["c04_only_free_name_after_retirement"] += 1
+        acc.ev["c04_retired_by_" + how] += 1
+        if got != "%d" % victim and not [v for v in ex.tracker.violations if "C04" in v["props"]]:
+            used = sorted(names_in_use(ex.world, "app"))
+            ex.tracker.flag({"C04"}, "allocate did not return the only free value of the shortest length", None,
+                            {"expected": "%d" % victim, "got": got, "retired_by": how, "in_use_now": used[:20]})
+        exhaust_choice(acc, ex.world, "app", case)
+        base = {"property": "C04", "kind": "history", "cfg": cfg.to_json(), "seed": lvl, "history": b.h, "case": case,
+                "timer": True, "quiesce": False}
+        acc.cases += 1
+        acc.absorb_tracker(ex.tracker, ex.world, hhash(b.h), base, KEYS)
     finally:
         ex.close()
 
@@ -223,6 +300,10 @@ def replay(pid, rep):
     c = rep.get("case", "")
     if c.startswith("fill"):
         run_fill({"allow_list": "True" in c.split("allow_list")[1][:8], "usage": "('usage', True)" in c}, acc)
+    elif c.startswith("retire"):
+        for job in jobs(pid, "quick", 0):
+            if job["kind"] == "retire":
+                run_retire(job, acc)
     elif c.startswith("holes"):
         for a in (True, False):
             for l in (1, 2, 3):
